@@ -385,6 +385,50 @@ def tol_of(c):
     return X.tolerance(fake)
 
 
+
+def _repro_diag(o, o2, left, right, lv):
+    """what differs between two runs that must be identical (kept in the replay file)"""
+    d = {"res2": o2["res"][0]}
+    try:
+        r2 = o2["res"]
+        if r2[0] == "ok":
+            d.update(left_maxdiff=float(np.max(np.abs(r2[1] - left))), right_maxdiff=float(np.max(np.abs(r2[2] - right))),
+                     n_left_diff=int(np.sum(r2[1] != left)), n_right_diff=int(np.sum(r2[2] != right)))
+        d["levels_equal"] = bool(o2["levels"] is not None and lv is not None and np.array_equal(o2["levels"], lv))
+        f1, f2 = o.get("focal"), o2.get("focal")
+        if f1 is not None and f2 is not None:
+            d["n_focal"] = [len(f1), len(f2)]
+            diff = [i for i, (a, b) in enumerate(zip(f1, f2)) if a != b]
+            d["focal_diff_idx"] = diff[:5]
+            if diff:
+                d["focal_first_diff"] = [repr(f1[diff[0]]), repr(f2[diff[0]])]
+        a1, a2 = o.get("alphas"), o2.get("alphas")
+        if a1 is not None and a2 is not None:
+            d["alphas_equal"] = bool(len(a1) == len(a2) and all(x == y for x, y in zip(a1, a2)))
+    except Exception as e:  # diagnostics must never break the check
+        d["diag_error"] = repr(e)[:120]
+    return d
+
+
+def _confirm_not_reproducible(ctx, c, same_object):
+    """A reproducibility failure must itself be reproducible before it is reported: run the pair again
+    (fresh inputs; for same_object two runs on ONE Dependency object).  A seeded defect (e.g. a generator kept
+    per Dependency object, an unseeded draw) shows again; a one-off disagreement that cannot be replayed is
+    counted in the evidence as `transient-not-reproducible-unconfirmed` and not reported."""
+    def eq(a, b):
+        ra, rb = a["res"], b["res"]
+        return (ra[0] == rb[0] == "ok" and np.array_equal(ra[1], rb[1]) and np.array_equal(ra[2], rb[2])
+                and a["levels"] is not None and b["levels"] is not None and np.array_equal(a["levels"], b["levels"]))
+    for _ in range(2):
+        a = run_mixed(c)
+        b = run_mixed(c, dep_obj=a["dep_obj"]) if (same_object and a.get("dep_obj") is not None) else run_mixed(c)
+        ctx.evaluations += 2
+        if not eq(a, b):
+            return True
+    ctx.bump("transient-not-reproducible-unconfirmed")
+    return False
+
+
 def oracle(ctx, c, o, pv, tol):
     impl = o["res"]
     d = len(c["inputs"])
@@ -465,12 +509,9 @@ def oracle(ctx, c, o, pv, tol):
         r2 = o2["res"]
         if r2[0] != "ok" or not (np.array_equal(r2[1], left) and np.array_equal(r2[2], right)) or \
                 not (o2["levels"] is not None and lv is not None and np.array_equal(o2["levels"], lv)):
-            diag = {"res2": r2[0]}
-            if r2[0] == "ok":
-                diag.update(left_maxdiff=float(np.max(np.abs(r2[1] - left))), right_maxdiff=float(np.max(np.abs(r2[2] - right))),
-                            levels_equal=bool(o2["levels"] is not None and lv is not None and np.array_equal(o2["levels"], lv)),
-                            n_left_diff=int(np.sum(r2[1] != left)), n_right_diff=int(np.sum(r2[2] != right)))
-            ctx.fail(feat(c, "not-reproducible"), cj(c, diag=diag), "interval Monte Carlo with the same seed and dependency gives a different p-box")
+            diag = _repro_diag(o, o2, left, right, lv)
+            if _confirm_not_reproducible(ctx, c, False):
+                ctx.fail(feat(c, "not-reproducible"), cj(c, diag=diag), "interval Monte Carlo with the same seed and dependency gives a different p-box")
         # ... also when the very same Dependency object is used again (a second draw must restart the stream)
         if o.get("dep_obj") is not None:
             o4 = run_mixed(c, dep_obj=o["dep_obj"])
@@ -478,7 +519,8 @@ def oracle(ctx, c, o, pv, tol):
             r4 = o4["res"]
             if r4[0] != "ok" or not (np.array_equal(r4[1], left) and np.array_equal(r4[2], right)) or \
                     not (o4["levels"] is not None and lv is not None and np.array_equal(o4["levels"], lv)):
-                ctx.fail(feat(c, "not-reproducible-same-object"), cj(c),
+              if _confirm_not_reproducible(ctx, c, True):
+                ctx.fail(feat(c, "not-reproducible-same-object"), cj(c, diag=_repro_diag(o, o4, left, right, lv)),
                          "a second interval Monte Carlo run with the same seed on the SAME Dependency object gives a different p-box")
         if c["n_sam"] >= 5 and d >= 1:
             o3 = run_mixed(c, seed_override=c["seed"] + 1)
